@@ -1,7 +1,7 @@
 //! C05 Each request gets at most one final outcome and then falls silent.
 
 use super::explore::{self, bfs, Event, Monitor, Step, Target, TimeDetail};
-use super::server::{Chal, NonceKind, PasKind, RClass, RMac, Reply};
+use super::server::{Chal, NonceKind, PasKind, RClass, RFp, RMac, Reply};
 use super::world::{CallRes, Cfg, FinalKind, Mech, OEv, Transport, Who, World};
 use crate::refs::codec::L;
 use crate::util::{Finish, Report, RunCtx, Shared};
@@ -229,6 +229,60 @@ pub fn run(ctx: &RunCtx) -> i32 {
         r.sym("deviation-runs");
         shared.merge(r);
     }
+    // every error code: one request answered by an error response with each code 300..=699 (authenticated as the mechanism
+    // wants it; 401 / 438 under long-term credentials as challenges), then the same buffer again, then a timer call far in the
+    // future - whatever the code, the request has exactly one final outcome
+    {
+        let mut ecfgs = vec![];
+        for t in [Transport::Unreliable { rto_ms: 100, gran_ms: 1, rm: 2, rc: 2 }, Transport::Reliable { timeout_ms: 300 }] {
+            for (m, f) in [(Mech::None, false), (Mech::None, true), (Mech::ShortTerm(Some(false)), false), (Mech::ShortTerm(None), true), (Mech::LongTerm, false)] {
+                ecfgs.push(Cfg { transport: t, mech: m, fingerprint: f, max_tx: 10, cred: 0, method: 1 });
+            }
+        }
+        ecfgs.par_iter().for_each(|cfg| {
+            let mut r = Report::new();
+            let fp = if cfg.fingerprint { RFp::Valid } else { RFp::Absent };
+            let mac = match cfg.mech {
+                Mech::None => RMac::None,
+                _ => RMac::Mi,
+            };
+            let chal = |n: u8| Chal { realm: true, nonce: NonceKind::Plain(n), pas: PasKind::Absent, realm_v: 0, order: 0 };
+            for code in 300u16..=699 {
+                let proto = Mon::new(3, TimeDetail::Coarse);
+                let mut run = explore::start(cfg, &apps, &proto);
+                let mut hist: Vec<Event> = vec![];
+                let mut go = |run: &mut explore::Run, hist: &mut Vec<Event>, ev: Event, r: &mut Report| {
+                    hist.push(ev.clone());
+                    let h = hist.clone();
+                    explore::step(run, &ev, Some((r, &h)))
+                };
+                go(&mut run, &mut hist, Event::Send { app: 0 }, &mut r);
+                if matches!(cfg.mech, Mech::LongTerm) {
+                    go(&mut run, &mut hist, Event::Deliver { to: Target::Req(0), reply: Reply::plain(RClass::Error(401)).with_chal(chal(1)).with_fp(fp) }, &mut r);
+                    go(&mut run, &mut hist, Event::Send { app: 0 }, &mut r);
+                }
+                let i = run.w.reqs.len() - 1;
+                let mut reply = Reply::plain(RClass::Error(code)).with_mac(mac).with_fp(fp);
+                if matches!(cfg.mech, Mech::LongTerm) && (code == 401 || code == 438) {
+                    reply = reply.with_chal(Chal { realm: code == 401, ..chal(2) });
+                }
+                go(&mut run, &mut hist, Event::Deliver { to: Target::Req(i), reply }, &mut r);
+                go(&mut run, &mut hist, Event::Redeliver(usize::MAX), &mut r);
+                go(&mut run, &mut hist, Event::TimerAt(3_600_000 * super::world::MS), &mut r);
+                if run.w.reqs[i].finals.len() != 1 {
+                    r.violate(
+                        format!("not-exactly-one-final-outcome/error-{}xx", code / 100),
+                        format!("error code {}: {:?}", code, run.w.reqs[i].finals.iter().map(|f| final_name(&f.1)).collect::<Vec<_>>()),
+                        json!({"config": cfg.show(), "events": explore::show_history(&hist), "history": hist}),
+                    );
+                }
+                r.transitions += hist.len() as u64;
+                r.states += hist.len() as u64;
+            }
+            r.sym("every-error-code");
+            shared.merge(r);
+        });
+    }
     let mut rep = shared.into_inner();
     rep.extra.insert("per_config".into(), json!(totals.iter().zip(cfgs.iter()).map(|(t, c)| json!({"config": c.show(), "states": t.0, "transitions": t.1, "depth": t.2})).collect::<Vec<_>>()));
     crate::util::finish(
@@ -236,9 +290,9 @@ pub fn run(ctx: &RunCtx) -> i32 {
         rep,
         Finish {
             level: "model_checking",
-            rule: format!("breadth-first exploration of the real client to depth {} over {{Send (<=2 concurrent, <=3 with coarse time), Timer, AdvanceTo(region representatives of every schedule point / deadline: -1 ms, exact, +1 ms, midpoint, beyond), Deliver(each awaiting or the last finished request x reply menu of the mechanism incl. auth-failing and 401/438), Deliver(unknown id), Deliver(an indication / a request carrying the id of an awaiting request), a send into a 16-byte buffer}} for {} transport x mechanism configurations (two of them - thorough four - with request methods 0x080 / 0xFFF / 0x100 / 0xA5A instead of Binding); plus deviation-bounded run-to-completion (<= {} deviations: lost / duplicated / late / after-failure / mis-authenticated reply, early / late / very late timer, extra request) on the default 500 ms / Rc 7 / Rm 16 configuration. States deduplicated on the full client snapshot + monitor state; every transition executed on the implementation", depth, cfgs.len(), if thorough { 4 } else { 3 }),
+            rule: format!("breadth-first exploration of the real client to depth {} over {{Send (<=2 concurrent, <=3 with coarse time), Timer, AdvanceTo(region representatives of every schedule point / deadline: -1 ms, exact, +1 ms, midpoint, beyond), Deliver(each awaiting or the last finished request x reply menu of the mechanism incl. auth-failing and 401/438), Deliver(unknown id), Deliver(an indication / a request carrying the id of an awaiting request), a send into a 16-byte buffer}} for {} transport x mechanism configurations (two of them - thorough four - with request methods 0x080 / 0xFFF / 0x100 / 0xA5A instead of Binding); plus deviation-bounded run-to-completion (<= {} deviations: lost / duplicated / late / after-failure / mis-authenticated reply, early / late / very late timer, extra request) on the default 500 ms / Rc 7 / Rm 16 configuration; plus, for 10 configurations, one request answered by an error response with EVERY code 300..=699, delivered twice and followed by a late timer call (exactly one final outcome whatever the code). States deduplicated on the full client snapshot + monitor state; every transition executed on the implementation", depth, cfgs.len(), if thorough { 4 } else { 3 }),
             assumptions: vec!["time is explored through region representatives (the client only compares and subtracts instants)".into(), "dedup key is a 128-bit hash of the canonical state rendering".into()],
-            required_symbols: vec!["Send", "Timer", "Advance", "Deliver", "bfs-configs", "deviation-runs"],
+            required_symbols: vec!["Send", "Timer", "Advance", "Deliver", "bfs-configs", "deviation-runs", "every-error-code"],
             min_outcomes: 8,
             exhaustive: true,
             bounds: json!({"depth": depth, "max_concurrent": 2, "deviations": if thorough {4} else {3}}),
